@@ -573,3 +573,81 @@ Lemma attach_refused g : seg_version g <> cache.SHM_VERSION \/ seg_size g <> cac
 Proof.
   intros H v E. apply attach_same in E. destruct E as [E1 [E2 _]]. destruct H; contradiction.
 Qed.
+
+(* ------------------------------------------------------------------ the invariant spelled out, and corollaries for Props *)
+Lemma WF_unfold s : WF s <->
+  (forall h, 0 <= h < HASHN -> exists l, chain (nx s) (hd s h) l /\ NoDup l /\
+     (forall x, In x l -> in_range x = true /\ uhash (idf s x) = h)).
+Proof. reflexivity. Qed.
+
+Lemma one_chain s x h l : WF s -> 0 <= h < HASHN -> chain (nx s) (hd s h) l -> In x l ->
+  uhash (idf s x) = h /\ NoDup l /\ (length l <= Z.to_nat MAXU)%nat /\ in_range x = true.
+Proof.
+  intros W Hh Hc Hin. destruct (WF_bucket s h W Hh) as [l' [Hc' [Hnd [Hr [Hhash Hlen]]]]].
+  rewrite <- (chain_fun _ _ _ Hc _ Hc') in *. auto.
+Qed.
+
+Lemma lookup_exact s : reachable s ->
+  (forall q v, search_user_raw s q = Ok v -> v <> 0 -> on_chain s (v - 1) /\ id_eq_ci q (idf s (v - 1)) = true) /\
+  (forall x q, on_chain s x -> unique_ci s x -> id_eq_ci q (idf s x) = true -> nth 0 q 0 <> 0 -> search_user_raw s q = Ok (x + 1)) /\
+  (forall q, (forall y, on_chain s y -> id_eq_ci q (idf s y) = false) -> search_user_raw s q = Ok 0) /\
+  (forall q, exists v, search_user_raw s q = Ok v).
+Proof.
+  intros R. pose proof (reachable_wf s R) as W. repeat split.
+  - unfold search_user_raw in H. destruct (nth 0 q 0 =? 0); [inversion H; congruence|]. apply (search_sound s q v W H H0).
+  - unfold search_user_raw in H. destruct (nth 0 q 0 =? 0); [inversion H; congruence|]. apply (search_sound s q v W H H0).
+  - intros x q Hon Hu Hq Hne. rewrite search_user_raw_nonempty by exact Hne. apply search_complete; assumption.
+  - intros q Hno. unfold search_user_raw. destruct (nth 0 q 0 =? 0); [reflexivity|]. apply search_absent; assumption.
+  - intros q. destruct (search_total s q W) as [v [E _]]. exists v. exact E.
+Qed.
+
+(* ------------------------------------------------------------------ non-vacuity *)
+Definition ex_id (l : list Z) : list Z := fixlen IDSZ l.
+Definition ex_recs : list (list Z) := [ex_id [83; 89; 83; 79; 80]; ex_id [97; 108]; ex_id []; ex_id [66; 111; 98]].   (* SYSOP al "" Bob *)
+
+(* a cold load over a zeroed segment, a rename to a case twin's bucket-mate, an unlink and a re-link, a reload from the agreeing file:
+   every lookup (any letter case) answers as the table says *)
+Example ex_history :
+  match load_uhash (unload reset_st) ex_recs with
+  | Ok s1 =>
+      match set_user_id s1 2 (ex_id [90; 101; 100]) with
+      | Ok (s2, 0) =>
+          match remove_from_uhash s2 0 with
+          | Ok (s3, 0) =>
+              match add_to_uhash s3 0 (ex_id [115; 121; 115; 111; 112]) with
+              | Ok (s4, 0) =>
+                  match load_uhash s4 [ex_id [115; 121; 115; 111; 112]; ex_id [90; 101; 100]; ex_id []; ex_id [66; 111; 98]] with
+                  | Ok s5 => search_user_raw s5 (ex_id [83; 121; 83; 111; 80]) = Ok 1 /\ search_user_raw s5 (ex_id [122; 69; 68]) = Ok 2 /\
+                             search_user_raw s5 (ex_id [97; 108]) = Ok 0 /\ search_user_raw s5 (ex_id [98; 79; 98]) = Ok 4 /\
+                             search_user_raw s3 (ex_id [83; 89; 83; 79; 80]) = Ok 0 /\ do_search_user_raw s5 (ex_id []) = Ok 3 /\ number s5 = 4 /\ loaded s5 = 1
+                  | _ => False
+                  end
+              | _ => False
+              end
+          | _ => False
+          end
+      | _ => False
+      end
+  | _ => False
+  end.
+Proof. vm_compute. repeat split; reflexivity. Qed.
+
+Example ex_reachable : exists s, reachable s /\ on_chain s 0 /\ idf s 0 = ex_id [90; 101; 100] /\ WF s.
+Proof.
+  destruct (cold_load_wf reset_st ex_recs) as [s1 [E1 [W1 _]]]; [vm_compute; discriminate|].
+  assert (R1 : reachable s1) by (eapply r_cold; [|exact E1]; vm_compute; discriminate).
+  assert (Hr : in_range 0 = true) by reflexivity.
+  destruct (remove_wf s1 0 W1 Hr) as [s2 [E2 [W2 [_ [Hon2 _]]]]].
+  assert (R2 : reachable s2) by (eapply r_remove; eauto).
+  assert (Hfree : ~ on_chain s2 0) by (intros Hx; apply Hon2 in Hx; destruct Hx as [_ Hx]; congruence).
+  destruct (add_wf s2 0 (ex_id [90; 101; 100]) W2 Hr Hfree) as [s3 [E3 [W3 [Hid [_ [Hon3 _]]]]]].
+  exists s3. split; [eapply r_add; eauto|]. split; [apply Hon3; right; reflexivity|]. split; [exact Hid|exact W3].
+Qed.
+
+(* a state that is NOT well-formed exists (the zeroed segment: every head points at slot 0, whose id hashes elsewhere), so WF is not vacuous *)
+Example ex_reset_not_wf : ~ WF reset_st.
+Proof.
+  intros W. destruct (W 0) as [l [Hc [Hnd Hx]]]; [unfold hash_ok; pose proof HASHN_pos; lia|].
+  unfold hd, reset_st in Hc. cbn [head] in Hc. rewrite tget_tconst in Hc. inversion Hc as [|p l' Hp Hc' E1 E2]; subst.
+  destruct (Hx 0 (or_introl eq_refl)) as [_ Hh]. vm_compute in Hh. discriminate.
+Qed.
